@@ -123,7 +123,7 @@ func c09EvFile() *xl.File {
 func c09ShowArg(a xl.VerifC09Arg) string {
 	switch a.Kind {
 	case "num":
-		return fmt.Sprintf("num:%016x", a.Bits)
+		return "num:" + c09Round12(math.Float64frombits(a.Bits))
 	case "bool":
 		if math.Float64frombits(a.Bits) == 1 {
 			return "bool:1"
@@ -137,6 +137,32 @@ func c09ShowArg(a xl.VerifC09Arg) string {
 		return "matrix:" + strconv.Itoa(a.Rows)
 	}
 	return a.Kind
+}
+
+// c09Round12: a number rounded to 12 significant digits as <sign><digits>e<exp10> (see round12 in Drv/C09.lean)
+func c09Round12(x float64) string {
+	switch {
+	case math.IsNaN(x):
+		return "NaN"
+	case x == 0:
+		if math.Signbit(x) {
+			return "-0"
+		}
+		return "0"
+	case math.IsInf(x, 1):
+		return "Inf"
+	case math.IsInf(x, -1):
+		return "-Inf"
+	}
+	s := strconv.FormatFloat(x, 'e', 11, 64) // d.ddddddddddde±XX
+	sign := ""
+	if s[0] == '-' {
+		sign, s = "-", s[1:]
+	}
+	i := strings.IndexByte(s, 'e')
+	mant, exp := strings.Replace(s[:i], ".", "", 1), s[i+1:]
+	e, _ := strconv.Atoi(exp)
+	return sign + mant + "e" + strconv.Itoa(e)
 }
 
 // c09PanicSite names the innermost excelize function on the panicking stack and the panic class.
@@ -344,7 +370,7 @@ func c09Mutate(rng *Rng, ts []efp.Token) []efp.Token {
 // kept so that a regression is reproduced deterministically)
 var c09EvWitnesses = []string{"({1}+SUM(2))", "'*'(1 2+3)", "SUM(1 '*'(2+3))", "'-'(1 2-3)", "'='(1 2=3)", "({1;2}+SUM(2)+(3))",
 	"1)", "SUM(1))", ")", "{1}+SUM(2)", "SUM((1,2))", "SUM(,)", "{SUM(1)}", "SUM({1}{2})", "1%%", "--1", "SUM(A1:A2,A1)", "SUM(A1:A2 A1)",
-	"1+", "SUM(1+)", "1*", "-", "(1+)", "1&", "SUM(1,)", "SUM(+)", "1<", "(({1}))", "SUM(({1}))", "({1})+SUM(1,(2))", "'*'((1 2)+3)", "SUM('*'(1,2) 3+4)"}
+	"SUM(({1,2}))", "SUM((1+{1,2}))", "LOOKUP((2,/{1,2,3},{\"a\",\"b\",\"c\"})", "SUM(0:0)", "1:0", "SUM(1:1048577)", "1+", "SUM(1+)", "1*", "-", "(1+)", "1&", "SUM(1,)", "SUM(+)", "1<", "(({1}))", "SUM(({1}))", "({1})+SUM(1,(2))", "'*'((1 2)+3)", "SUM('*'(1,2) 3+4)"}
 
 func c09EvStream(r *Run, rng *Rng) {
 	f := c09EvFile()
